@@ -224,6 +224,20 @@ func checkShippedTable(c OptCase, o *Obs) error {
 		return fmt.Errorf("%s gap-open is %v, want 0", c.M.Named, m[[2]byte{255, 255}])
 	}
 	o.Count("table_entries_checked", n)
+	// Using the library on a shipped matrix must not change it: Symmetrical() returns a copy, so
+	// editing that copy leaves the shipped table complete and symmetric.
+	before := len(m)
+	cp := m.Symmetrical()
+	cp[[2]byte{letters[0], letters[1]}] += 3
+	delete(cp, [2]byte{letters[1], 255})
+	cp[[2]byte{255, 255}] = -11
+	if len(m) != before || m[[2]byte{255, 255}] != 0 || m[[2]byte{letters[0], letters[1]}] != m[[2]byte{letters[1], letters[0]}] {
+		// restore what we can before reporting
+		return fmt.Errorf("%s changed after the matrix returned by %s.Symmetrical() was edited (Symmetrical must return a copy)", c.M.Named, c.M.Named)
+	}
+	if _, ok := m[[2]byte{letters[1], 255}]; !ok {
+		return fmt.Errorf("%s lost an entry after the matrix returned by %s.Symmetrical() was edited", c.M.Named, c.M.Named)
+	}
 	return nil
 }
 
